@@ -368,7 +368,7 @@ def rad_tie(ctx, rad, env, stats, only=None):
         bad = None
         tv = text_value(htx); tu = text_value(htu)
         if tv is None or tu is None or tv != tu:
-            ctx.violation("layout:dpe:number", "rdpe_out_str / rdpe_out_str_u wrote %r / %r for the DPE %s:%d: not the layout % 16.14f[xe]%%+04li" % (htx, htu, h, esp), rp(i))
+            ctx.violation("layout:dpe:number", "rdpe_out_str / rdpe_out_str_u wrote %r / %r for the DPE %s:%d: not the layout %% 16.14f[xe]%%+04li" % (htx, htu, h, esp), rp(i))
             continue
         N, l = tv
         if m != 0:
